@@ -24,6 +24,7 @@ def _run_task(args):
     try:
         mod = importlib.import_module(modname)
         r = dict(mod.run(hname, cfg, tier, seed))
+        r["hname"] = hname
         # auto-escalate the bit-vector width when the interval analysis could not exclude wrap-around
         for w in (96, 128):
             if not any("overflow of the" in i for i in r.get("inconclusive", [])):
@@ -32,6 +33,7 @@ def _run_task(args):
                 continue
             cfg = dict(cfg, W=w)
             r = dict(mod.run(hname, cfg, tier, seed))
+            r["hname"] = hname
         return r
     except BaseException as ex:  # noqa: BLE001
         return dict(property=modname, harness=hname, cfg=cfg, errors=[f"task crashed: {type(ex).__name__}: {ex}\n"
@@ -60,14 +62,48 @@ def check(prop, tier, seed, jobs):
             pre_errors = [f"precheck crashed: {type(ex).__name__}: {ex}\n{traceback.format_exc()[-1200:]}"]
     tasks = mod.tasks(tier)
     args = [(modname, h, cfg, tier, seed) for h, cfg in tasks]
-    results = []
-    if jobs <= 1 or len(args) <= 1:
-        results = [_run_task(a) for a in args]
-    else:
+    split = getattr(mod, "SPLIT_DEPTH", 0) if jobs > 1 else 0
+    if split:
+        args = [(m_, h, dict(cfg, _split=split), t_, s_) for (m_, h, cfg, t_, s_) in args]
+
+    def run_all(arglist):
+        out = []
+        if jobs <= 1 or len(arglist) <= 1:
+            return [_run_task(a) for a in arglist]
         ctx = mp.get_context("fork")
-        with ctx.Pool(min(jobs, len(args)), maxtasksperchild=1) as pool:
-            for r in pool.imap_unordered(_run_task, args, chunksize=1):
-                results.append(r)
+        with ctx.Pool(min(jobs, len(arglist)), maxtasksperchild=1) as pool:
+            for r in pool.imap_unordered(_run_task, arglist, chunksize=1):
+                out.append(r)
+        return out
+
+    results = run_all(args)
+    if split:
+        # second phase: the decision prefixes that reached the split depth are explored by separate workers
+        sub = []
+        for r in results:
+            base = {k: v for k, v in (r.get("cfg") or {}).items() if k not in ("_split", "_prefix")}
+            r["cfg"] = base
+            for pfx in r.get("pending", []):
+                sub.append((modname, r.get("hname", "read"), dict(base, _prefix=pfx), tier, seed))
+        subres = run_all(sub) if sub else []
+        by_cfg = {json.dumps(r["cfg"], sort_keys=True, default=str): r for r in results}
+        for sr in subres:
+            base = {k: v for k, v in (sr.get("cfg") or {}).items() if k not in ("_split", "_prefix")}
+            tgt = by_cfg.get(json.dumps(base, sort_keys=True, default=str))
+            if tgt is None:
+                sr["cfg"] = base
+                results.append(sr)
+                continue
+            for k in ("paths", "feasible_paths", "decisions", "obligations", "discharged", "witnesses", "unrealisable",
+                      "solver_s", "int_checks", "bv_checks", "exhausted", "int_decides"):
+                tgt[k] = tgt.get(k, 0) + sr.get(k, 0)
+            for k in ("violations", "known", "witness_failures", "inconclusive", "errors", "notes", "samples"):
+                tgt[k] = list(tgt.get(k, [])) + [x for x in sr.get(k, []) if k != "known" or x not in tgt.get(k, [])]
+            tgt["funcs"] = sorted(set(tgt.get("funcs", [])) | set(sr.get("funcs", [])))
+            tgt["lines"] = sorted({tuple(x) for x in tgt.get("lines", [])} | {tuple(x) for x in sr.get("lines", [])})
+            tgt["wall_s"] = round(tgt.get("wall_s", 0) + sr.get("wall_s", 0), 2)
+            for k, v in sr.get("exceptions", {}).items():
+                tgt.setdefault("exceptions", {})[k] = tgt.get("exceptions", {}).get(k, 0) + v
     results.sort(key=lambda r: json.dumps(r.get("cfg"), sort_keys=True, default=str))
 
     violations = [v for r in results for v in r["violations"]]
